@@ -446,7 +446,7 @@ def _c04_addons(mon, s, cfg):
 def _c16_adjustments(mon, s, cfg):
     """ITC lowers capital cost by exactly rate x cost; grants, incentives, fees, tax relief enter by their amounts."""
     ec, wb = s.economics, s.wellbores
-    if cfg['eclass'] != 'Economics':
+    if cfg['eclass'] not in ('Economics', 'SBTEconomics'):
         return
     pt, L = cfg['ptype'], cfg['life']
     if ec.totalcapcost.Valid:
